@@ -202,6 +202,16 @@ pub fn run(tier: Tier) -> i32 {
     sweep_json(&mut run, tys, &lib, &docs, &sdocs, &format!("weight_{k}"));
     run.transitions += tys.len() as u64 * docs.len() as u64;
   }
+  // map family: every map of 1..3 members (and two alternatives) over a member alphabet that
+  // weight-bounded enumeration reaches only at weight 6-9 (two or three keyed members)
+  {
+    let fam = map_family(tier);
+    let mdocs = map_family_docs(tier);
+    let msdocs: Vec<serde_json::Value> = mdocs.iter().map(rv_to_serde).collect();
+    sweep_json(&mut run, &fam, &lib, &mdocs, &msdocs, "map_family");
+    run.transitions += fam.len() as u64 * mdocs.len() as u64;
+    run.set("map_family", json!({"schemas": fam.len(), "documents": mdocs.len()}));
+  }
   run.evaluations = run.states;
   run.rule = format!(
     "state = (schema, JSON document). Schemas: every type term of weight <= {w} (weight = constructor nodes) over the core alphabet \
@@ -242,4 +252,68 @@ pub fn replay(case: &serde_json::Value) -> Option<Viol> {
     }
   }
   None
+}
+
+
+pub fn map_members() -> Vec<Entry> {
+  let kv = |occ: Occ, k: Key, t: T2| Entry { occ, kind: EK::Val(Some(k), ty1(t)) };
+  let bare = |s: &str| Key::Bare(s.into());
+  let arrow = |t: T2, cut: bool| Key::Arrow(t1(t), cut);
+  vec![
+    kv(Occ::One, bare("a"), name("int")),
+    kv(Occ::Opt, bare("a"), name("int")),
+    kv(Occ::One, bare("b"), name("tstr")),
+    kv(Occ::Opt, bare("b"), name("tstr")),
+    kv(Occ::Opt, bare("c"), name("any")),
+    kv(Occ::One, bare("c"), name("int")),
+    kv(Occ::One, arrow(text("a"), false), int(1)),
+    kv(Occ::Opt, arrow(text("a"), true), name("int")),
+    kv(Occ::Star, arrow(name("tstr"), false), name("int")),
+    kv(Occ::Star, arrow(name("tstr"), false), name("any")),
+    kv(Occ::Plus, arrow(name("tstr"), false), name("tstr")),
+    kv(Occ::Range(None, Some(1)), arrow(name("tstr"), false), name("int")),
+    Entry { occ: Occ::One, kind: EK::Ref("gk".into(), vec![]) },
+    Entry { occ: Occ::One, kind: EK::Ref("go".into(), vec![]) },
+  ]
+}
+
+pub fn map_family(tier: Tier) -> Vec<Ty> {
+  let ms = map_members();
+  let mut out = vec![];
+  for a in &ms {
+    for b in &ms {
+      out.push(ty1(T2::Map(Grp(vec![vec![a.clone(), b.clone()]]))));
+      out.push(ty1(T2::Map(Grp(vec![vec![a.clone()], vec![b.clone()]]))));
+      for c in &ms {
+        out.push(ty1(T2::Map(Grp(vec![vec![a.clone(), b.clone(), c.clone()]]))));
+        if tier == Tier::Thorough {
+          out.push(ty1(T2::Map(Grp(vec![vec![a.clone(), b.clone()], vec![c.clone()]]))));
+          out.push(ty1(T2::Map(Grp(vec![vec![a.clone()], vec![b.clone(), c.clone()]]))));
+        }
+      }
+    }
+  }
+  out
+}
+
+pub fn map_family_docs(tier: Tier) -> Vec<RV> {
+  let vals: Vec<RV> = tier.pick(vec![i(1), t("x")], vec![i(1), t("x"), NULL, i(2)]);
+  let n = vals.len() + 1;
+  let mut out = vec![];
+  for x in 0..n {
+    for y in 0..n {
+      for z in 0..n {
+        for w in 0..tier.pick(2, n) {
+          let mut es = vec![];
+          for (k, idx) in [("a", x), ("b", y), ("c", z), ("d", w)] {
+            if idx > 0 {
+              es.push((t(k), vals[idx - 1].clone()));
+            }
+          }
+          out.push(RV::Map(es));
+        }
+      }
+    }
+  }
+  out
 }
